@@ -544,7 +544,9 @@ class BezierPath(BooleanOperationsMixin, SampleMixin, object):
         segs = []
         for s in self.asSegments():
             segs.extend(s.flatten(degree))
-        return BezierPath.fromSegments(segs)
+        flat = BezierPath.fromSegments(segs)
+        flat.closed = self.closed
+        return flat
 
     def windingNumberOfPoint(self, pt: Point) -> int:
         """Returns the winding number of a point with respect to the path."""
